@@ -188,7 +188,7 @@ func init() {
 			Check: []scanCfg{tr, ch, tg, cm}, Export: []scanCfg{tr, ch, tg, cm}, MaxAPI: 0, MaxCLIFromTLC: 40,
 			NRandom: 0, MaxTraces: 40, Relational: true,
 			Fails: scanFails["C09"],
-			Extra: wideCases("c09"),
+			Extra: append(wideCases("c09"), rootKindCases("c09")...),
 			Rule:  "every delivery order (all permutations of trees, tags, blobs; all parents-first commit orders) of every graph of the TLC families Trees, Tags, Commits replayed into sizes.Graph: all orders of one graph must agree and equal the oracle; the same graphs materialised with permuted dates, root order and storage layouts must give identical numbers; distinct = distinct (graph, order) / (graph, layout)",
 		}
 		if !quick(c) {
